@@ -217,6 +217,9 @@ func lexWithInterner(name, input string, interner *StringInterner) *lexer {
 
 // run runs the state machine for the lexer.
 func (l *lexer) run() {
+	// Closing the channel tells a consumer that gave up early (see
+	// Tree.recover) that nothing more will be sent.
+	defer close(l.items)
 	for l.state = lexStmt; l.state != nil; {
 		l.state = l.state(l)
 	}
